@@ -18,13 +18,29 @@ TRUSTED_COMMON = [
 def common_stage(rep, need_theorems=True):
     """source facts, full Coq build, forbidden-construct scan, the property's theorem file"""
     ok, msg = source_facts()
-    rep.oblige("source-facts-regenerated", ok, msg)
-    ok, log = coq_make()
+    # a lost anchor is charged to the properties whose model constants it feeds (unknown anchors to every property)
+    ANCHOR_PROPS = [("space_chars", "C04 C10 C09"), ("skip_newline", "C04 C10"), ("source_point", "C10"), ("update body", "C10"), ("is_printable", "C03 C17"), ("is_dec_digit", "C03 C17"),
+                    ("is_hex_digit", "C03 C17"), ("specials", "C03 C17 C18"), ("uninitialized16", "C04 C06 C18"), ("recognized_term", "C04 C06 C18"), ("conflicted_recognition", "C04"),
+                    ("parse_table_entry_kind", "C01 C05 C11"), ("dfa_size", "C12"), ("situation", "C12 C01"), ("stack capacity", "C12 C06 C07"), ("default limits", "C12"), ("make_situation_idx", "C01 C11"),
+                    ("get_parse_table_idx", "C01"), ("dfa_size_analyzer", "C12"), ("name", "C16 C09 C11"), ("regex", "C03 C17"), ("functor", "C03 C17"), ("pattern parse options", "C03 C17"),
+                    ("skip list", "C19"), ("element", "C19"), ("construct", "C19"), ("emplace_back", "C19")]
+    relevant = True
+    if not ok:
+        hit = [pr for key, pr in ANCHOR_PROPS if key in msg]
+        relevant = (not hit) or any(rep.pid in pr.split() for pr in hit)
+    if relevant: rep.oblige("source-facts-regenerated", ok, msg)
+    # the frame facts are regenerated on every run too (their obligation belongs to C15; other checks only need the file to be current)
+    rcf, outf, _ = sh([sys.executable, VERIF + "/tools/frame_facts.py", HEADER, COQ + "/Model/FrameFacts.v"])
+    if rep.pid == "C15": rep.oblige("frame-facts-regenerated-from-source (const member functions, no mutable/const_cast/static data, constexpr globals, local lexer instance)", rcf == 0, outf.strip()[:400])
+    # full .vo build of what this property's theorems depend on (make -k: an unrelated broken file does not hide them)
+    TIE_PROPS = {"C03", "C04", "C09", "C10", "C12", "C16", "C17"}
+    targets = [f"Props/Properties_{rep.pid}.vo"] + (["Proofs/SourceFactsTie.vo"] if rep.pid in TIE_PROPS else [])
+    ok, log = coq_make(targets)
     if not ok:
         failed = re.findall(r"File \"\./([^\"]+)\", line (\d+)", log)
-        rep.oblige("coq-project-builds", False, "files failing: " + ", ".join(sorted({f for f, _ in failed})) + " :: " + log[-600:])
+        rep.oblige("coq-development-builds (theorems of this property and the source-fact ties they use)", False, "files failing: " + ", ".join(sorted({f for f, _ in failed})) + " :: " + log[-600:])
     else:
-        rep.oblige("coq-project-builds", True)
+        rep.oblige("coq-development-builds (theorems of this property and the source-fact ties they use)", True)
     bad = scan_forbidden()
     rep.oblige("no-admitted-no-axiom", not bad, "; ".join(bad[:5]))
     if need_theorems:
@@ -517,6 +533,8 @@ def check_C13(rep):
 
 def check_C18(rep):
     common_stage(rep)
+    FX.run_fixed(rep, "custom_lexer.cpp", "g++", "-O1", "custom-lexer-contract-violated")
+    FX.run_fixed(rep, "custom_lexer.cpp", "clang++", "-O1 -fsanitize=address,undefined -fno-sanitize-recover=all", "custom-lexer-contract-violated")
     run = h1_stage(rep)
     if run is None: return rep
     nontriv = set(); samples = []
@@ -999,9 +1017,6 @@ def check_C14(rep):
 
 def check_C15(rep):
     common_stage(rep)
-    rc, out, _ = sh([sys.executable, VERIF + "/tools/frame_facts.py", HEADER, COQ + "/Model/FrameFacts.v"])
-    rep.oblige("frame-facts-regenerated-from-source (const member functions, no mutable/const_cast/static data, constexpr globals, local lexer instance)", rc == 0, out.strip()[:400])
-    if rc != 0: rep.notes["frame_problems"] = out.strip()
     ok = FX.run_fixed(rep, "threads.cpp", "g++", "-O1 -g -fsanitize=thread -pthread", "concurrent-calls-differ-or-race-or-parser-object-changed")
     FX.run_fixed(rep, "threads.cpp", "clang++", "-O1 -pthread", "concurrent-calls-differ-or-parser-object-changed")
     rep.cov["distinct_nontrivial"] = 27 if ok else 2
